@@ -106,6 +106,16 @@ CLAIMED = {
             "two-request histories.",
             "partial: 'bring-up APDUs precede the command APDU' is checked by the oracle on the implementation's "
             "traces and by correspondence, not stated as a theorem; TCP-transport faults are out of scope"),
+    "C12": ("Lean theorems: the server class instantiated by comm/server.py (extracted from the source by the "
+            "translator on every run) is socketserver.TCPServer, i.e. the `sequential` kind of the scheduler model; "
+            "for that kind, for any number of clients and EVERY schedule (arbitrary list of accept/step choices), "
+            "the device log stays in contiguous per-request blocks (invariant: at most one running handler; "
+            "induction over the schedule); for the handler-per-connection kind the interleaving counter-schedule "
+            "is proved, so switching the class breaks the obligation. Tied to the real TCPServer.run on an "
+            "ephemeral port with 2..16 simultaneous client threads and random device-side delays; the oracle "
+            "checks contiguous blocks, reply routing, and equality with the model under the observed accept order.",
+            "partial by nature: CPython's socketserver/kernel sequential semantics are assumed; the real-socket "
+            "runs are schedule sampling, not proof"),
     "C13": ("Lean theorems over generated tables: state selectors, flag offsets and network names are those of "
             "firmware bc_state.h / docs/protocol.md; big-endian difficulty read-back ignores leading zeros and "
             "round-trips below 2^288. The oracle Spec.C13.c13 recomputes the documented reply from the simulated "
